@@ -28,6 +28,7 @@ UNIT_PROPS = {
     "term_line": ["C26"],
     "cob_evaluate": ["C06"],
     "refs_text": ["C20"],
+    "cob_thread": ["C07"],
     "fetch_validate": ["C01"],
     "service_inventory": ["C11"],
 }
@@ -187,11 +188,11 @@ PROPS = {
         "not_decided": "That Dag::prune_by (radicle-dag) calls the filter once per reachable node in dependency order and removes the node with its dependents on Break is ASSUMED (stand-in without body), so the whole-history equation 'state == evaluation of the pruned history' follows only relative to that; Evaluate::apply's failure frame is a trait contract taken from the statement, proved for Issue/Patch/Identity::op only (Thread and External by inspection); what a valid signature is (ExtendedSignature::verify) is a ghost fact.",
     },
     "C07": {
-        "vx": ["cob_auth", "cob_auth_patch"],
+        "vx": ["cob_auth", "cob_auth_patch", "cob_thread"],
         "kx": [],
         "technique": "Verus postcondition = the statement's rule table on the extracted Issue::authorization / Patch::authorization (+ lookup::review/revision); gate idiom on op_action (sink `action` requires authorization)",
-        "explanation": "Issue::authorization and Patch::authorization return Allow only for delegates of the referenced document or when the rule table written from the statement allows it (assign/label/merge: delegates only, no-op tolerated; edit/lifecycle: object author; comment, review, revision edit/redact: their author). op_action reaches the mutating `action` only on Allow; Deny is an error and Unknown leaves the object unchanged.",
-        "not_decided": "What `action` then does to the object; Issue::author / Thread::comment lookups are assumed accessors; Patch representation invariant reviews_wf assumed.",
+        "explanation": "Issue::authorization and Patch::authorization return Allow only for delegates of the referenced document or when the rule table written from the statement allows it (assign/label/merge: delegates only, no-op tolerated; edit/lifecycle: object author; comment, review, revision edit/redact: their author). op_action reaches the mutating `action` only on Allow; Deny is an error and Unknown leaves the object unchanged. The key those comment rules compare with (unit cob_thread): Comment::new records its author, Comment::author returns that key and Comment::edit -- by whoever is allowed to make it -- never changes it.",
+        "not_decided": "What `action` then does to the object; Issue::author / Thread::comment lookups are assumed accessors (Comment::author itself is verified in cob_thread; the Comment of units cob_auth / cob_auth_patch is a stand-in with that contract); Patch representation invariant reviews_wf assumed.",
     },
     "C25": {
         "vx": ["sync"],
